@@ -47,6 +47,18 @@ Abstract domain:
 Every generated function has the type `… → Option (Sets.SSet α × R × Nat)` (const members: `Option (R × Nat)`): `none` =
 undefined behaviour reached, otherwise (final state, returned value, comparator calls of the inline scans).
 
+Task T8 adds: range insertion (`insert(first, last)` with its `while (isSmall() && first != last)` loop = `whileFuel
+insert_range_step (vs.length + 1)`, `insert(initializer_list)`, `operator=(initializer_list)`, the range / initializer-list
+constructors), `erase(first, last)`, `swap`, `insert(hint, value)`, `extract(key / position)`, `insert(node_type&&)`,
+`insert(hint, node_type&&)` (node handle = `Option α`; `_set.extract(…)` / hinted `_set.insert(hint, v)` of the backing set =
+its hand-written list model), and the comparison operators: `_set == / < o._set` = `vecEq eqT` / `vecLess ltT`,
+`std::is_permutation` = `isPermutation eqT`, `ComputeSortedPtrVec` (inlined: `std::transform` taking addresses into a pointer
+vector = the list of the pointees, `std::sort` with a lambda = `sortedBy <member>_pred`, the lambda being executed symbolically:
+it calls a DEFAULT-CONSTRUCTED comparator, the extra parameter `lt_default`), `std::lexicographical_compare` with the local
+functor `Comp` (each of its overloads is checked to be `<` of the element type) = `vecLess ltT`.  A member that exists with a
+different body in the two instantiations (it calls `ToVecIt` / `ToSetIt`, which have one overload per iterator kind) is generated
+once per instantiation (`…_ptr`, `…_var`).
+
 The translator refuses (exit status 2, message naming the construct and its source line) anything outside this subset.
 """
 import argparse, hashlib, json, os, re, sys, tempfile
@@ -54,7 +66,7 @@ import argparse, hashlib, json, os, re, sys, tempfile
 sys.path.insert(0, os.path.dirname(os.path.abspath(__file__)))
 import flatset2lean as F
 from flatset2lean import (Unsupported, clang_dump, annotate_lines, qual, line_of, kids, has_body, body_of, params_of,
-                          Ite, MatchIdx, Bind, Let, Leaf, UB, atom)
+                          Ite, MatchIdx, Bind, Let, Leaf, UB, MatchOpt, atom, peel, leaves)
 
 HEADER = os.path.join('amc', 'smallset.hpp')
 
@@ -74,7 +86,10 @@ using SS = {ss};
 template class {ss};
 template std::pair<SS::iterator, bool> SS::emplace<const int &>(const int &);
 template SS::iterator SS::erase<SS::const_iterator>(SS::const_iterator, void *);
+template SS::iterator SS::erase<SS::const_iterator>(SS::const_iterator, SS::const_iterator, void *);
 template void SS::merge<{n}, std::less<int>, {set_type}>(SS &);
+template void SS::insert<const int *>(const int *, const int *);
+template SS::SmallSet(const int *, const int *, const std::less<int> &, const amc::allocator<int> &);
 '''
 
 
@@ -112,11 +127,45 @@ TARGETS_P2 = [
     ('empty', (), 'empty'),
     ('merge', ('other',), 'merge'),
 ]
+# Task T8
+TARGETS_P4 = [
+    ('insert', ('range', 'range'), 'insert_range'),
+    ('insert', ('ilist',), 'insert_ilist'),
+    ('operator=', ('ilist',), 'assign_ilist'),
+    ('SmallSet', ('range', 'range', 'comp', 'alloc'), 'ctor_range'),
+    ('SmallSet', ('ilist', 'comp', 'alloc'), 'ctor_ilist'),
+    ('erase', ('iter', 'iter', 'ignored'), 'erase_range_ptr', 0),
+    ('erase', ('iter', 'iter', 'ignored'), 'erase_range_var', 1),
+    ('swap', ('other',), 'swap'),
+    ('insert', ('iter', 'cref'), 'insert_at_ptr', 0),     # insert(hint, v): ToSetIt(hint) is one of two overloads
+    ('insert', ('iter', 'cref'), 'insert_at_var', 1),
+    ('insert', ('iter', 'rref'), 'insert_at_rv_ptr', 0),
+    ('insert', ('iter', 'rref'), 'insert_at_rv_var', 1),
+    ('extract', ('cref',), 'extract'),
+    ('extract', ('iter',), 'extract_at_ptr', 0),
+    ('extract', ('iter',), 'extract_at_var', 1),
+    ('insert', ('node',), 'insert_node'),
+    ('insert', ('iter', 'node'), 'insert_node_at_ptr', 0),
+    ('insert', ('iter', 'node'), 'insert_node_at_var', 1),
+]
+TARGETS_P5 = [
+    ('operator==', ('other',), 'op_eq'),
+    ('operator!=', ('other',), 'op_ne'),
+    ('operator<', ('other',), 'op_lt'),
+    ('operator<=', ('other',), 'op_le'),
+    ('operator>', ('other',), 'op_gt'),
+    ('operator>=', ('other',), 'op_ge'),
+]
 if os.environ.get('SMALLSET2LEAN_P2', '1') == '1':
     TARGETS = TARGETS + TARGETS_P2
+LEVEL = int(os.environ.get('SMALLSET2LEAN_LEVEL', '5'))
+if LEVEL >= 4:
+    TARGETS = TARGETS + TARGETS_P4
+if LEVEL >= 5:
+    TARGETS = TARGETS + TARGETS_P5
 
 RESERVED = {'s', 'o', 'lt', 'N', 'α', 'some', 'none', 'if', 'then', 'else', 'match', 'with', 'let', 'fun', 'def', 'true',
-            'false', 'st', 'fl', 'x'}
+            'false', 'st', 'fl', 'x', 'at', 'from', 'end', 'in', 'do', 'vs'}
 
 
 def dq(n):
@@ -155,14 +204,7 @@ class Path(F.Path):
         self.ovec = None          # merge only: `_vec` / `_set` of the other set
         self.oset = None
         self.cursor = None        # merge_step only: None (untouched) | 'erase' | 'next'
-
-    def copy(self):
-        p = Path()
-        p.lst, p.ncalls, p.csyms = self.lst, self.ncalls, self.csyms
-        p.known = dict(self.known); p.derefs = dict(self.derefs)
-        p.frames = [dict(f) for f in self.frames]; p.nfresh = self.nfresh
-        p.vec, p.set, p.ovec, p.oset, p.cursor = self.vec, self.set, self.ovec, self.oset, self.cursor
-        return p
+        self.memo = {}            # const member calls already bound on this path: call text -> variable
 
 
 def arg(t):
@@ -180,6 +222,8 @@ def state_term(vec, st):
 
 
 class Translator(F.Translator):
+    ITER_KINDS = ('vit', 'sit', 'pit')
+    memo_const = False
     def __init__(self, spec, inst):
         self.spec = spec
         self.inst = inst
@@ -188,7 +232,12 @@ class Translator(F.Translator):
         self.targets = {}
         self.sigs = {}
         self.param_names = set()
-        self.mode = 'member'      # 'member' | 'functor' | 'step'
+        self.mode = 'member'      # 'member' | 'functor' | 'step' | 'range_step'
+        self.aux_defs, self.aux_names, self.extras = [], [], []
+        self.other_ids = {}
+        self.irt_fields = None
+        self.local_structs = {}
+        self.extras_of = {}
         if spec.get('bases'):
             raise Unsupported(f'SmallSet is expected to have no base class, found {len(spec["bases"])}')
         fields = [(m.get('name'), line_of(m)) for m in kids(spec) if m.get('kind') == 'FieldDecl']
@@ -196,15 +245,18 @@ class Translator(F.Translator):
             raise Unsupported(f'smallset.hpp: the data members of SmallSet are expected to be exactly `_vec`, `_set`; found '
                               + ', '.join(f'`{nm}` (line {ln})' for nm, ln in fields) + ' (the model has no such state)')
         for m in kids(spec):
-            if m.get('kind') == 'CXXMethodDecl':
+            if m.get('kind') in ('CXXMethodDecl', 'CXXConstructorDecl'):
                 self.by_id[m['id']] = m
             elif m.get('kind') == 'FunctionTemplateDecl':
                 for c in kids(m):
-                    if c.get('kind') == 'CXXMethodDecl':
+                    if c.get('kind') in ('CXXMethodDecl', 'CXXConstructorDecl'):
                         self.by_id[c['id']] = c
+            elif m.get('kind') == 'CXXRecordDecl' and m.get('name') == 'insert_return_type':
+                self.irt_fields = [c.get('name') for c in kids(m) if c.get('kind') == 'FieldDecl']
         for nm, pkinds, lean in (t[:3] for t in self.my_targets):
             found = [m for m in self.by_id.values()
-                     if m.get('name') == nm and has_body(m) and self.sel_kinds(m) == pkinds]
+                     if m.get('name') == nm and has_body(m) and self.sel_kinds(m) == pkinds
+                     and (m.get('kind') == 'CXXConstructorDecl') == (nm == 'SmallSet')]
             if len(found) != 1:
                 raise Unsupported(f'member SmallSet::{nm}({", ".join(pkinds)}) with a body: expected exactly one, found '
                                   f'{len(found)} (changed set of members)')
@@ -231,7 +283,17 @@ class Translator(F.Translator):
         out = []
         for p in params_of(m):
             t = dq(p)
-            if t == 'const int &':
+            if qual(p) == 'const int *':
+                out.append('range')                       # one end of an input range (InputIt = const int *)
+            elif t == 'std::initializer_list<int>':
+                out.append('ilist')
+            elif t == 'const std::less<int> &':
+                out.append('comp')
+            elif t == 'const amc::BasicAllocatorWrapper<int, amc::SimpleAllocator> &':
+                out.append('alloc')
+            elif re.fullmatch(r'amc::SmallSet<int, .*>::node_type &&', t):
+                out.append('node')
+            elif t == 'const int &' or re.fullmatch(r'const amc::SmallSet<int, .*>::key_type &', t):
                 out.append('cref')
             elif t == 'int &&':
                 out.append('rref')
@@ -239,7 +301,7 @@ class Translator(F.Translator):
                 out.append('iter')
             elif 'enable_if' in qual(p) and not p.get('name'):
                 out.append('ignored')
-            elif strip_cvref(t).startswith(('amc::SmallSet<int,', 'SmallSet<int,')) and t.endswith(' &') and not t.startswith('const '):
+            elif strip_cvref(t).startswith(('amc::SmallSet<int,', 'SmallSet<int,')) and t.endswith(' &') and not t.endswith('_type &'):
                 out.append('other')
             else:
                 out.append('?' + t)
@@ -250,7 +312,7 @@ class Translator(F.Translator):
         if isinstance(n, dict) and qual(n) == ty:
             ty = dq(n)
         t = strip_cvref(ty)
-        if t == 'int':
+        if t == 'int' or re.fullmatch(r'amc::SmallSet<int, .*>::key_type', t):
             return 'elem'
         if t in ('int *', 'const int *', 'int *const', 'const int *const'):
             return 'ptr'
@@ -269,12 +331,29 @@ class Translator(F.Translator):
             return ('pair', self.type_kind(m.group(1), None), 'b')
         if t.endswith('::FindFunctor<int>'):
             return 'ff'
+        if re.fullmatch(r'amc::SmallSet<int, .*>::node_type', t):
+            return 'node'
+        if re.fullmatch(r'amc::SmallSet<int, .*>::insert_return_type', t):
+            return 'irt'
+        if t in ('amc::FlatSet<int>::node_type',) or t.startswith('std::_Node_handle<int, int,'):
+            return 'snode'                                  # the node handle type of the backing set
+        if t == 'std::optional<int>':
+            return 'opt'
+        if t == 'amc::BasicAllocatorWrapper<int, amc::SimpleAllocator>':
+            return 'alloc'
+        if t == 'std::less<int>':
+            return 'comp'
+        if re.fullmatch(r'amc::(FixedCapacityVector|Vector)<const int \*, .*>', t, re.S) or re.fullmatch(r'amc::SmallSet<int, .*>::PtrVec', t):
+            return 'ptrvec'                                  # a vector of pointers to elements: the list of the pointees
+        if t in self.local_structs:
+            return 'cmpobj'
         raise Unsupported(f'{where(n) if isinstance(n, dict) else "smallset.hpp:?"}: type `{ty}` is outside the translated subset')
 
     def lean_type(self, kind):
         if isinstance(kind, tuple):
             return f'{atom(self.lean_type(kind[1]))} × {self.lean_type(kind[2])}'
-        return {'vit': 'Nat', 'ssit': 'Bool × Nat', 'n': 'Nat', 'b': 'Bool', 'elem': 'α', 'void': 'Unit'}[kind]
+        return {'vit': 'Nat', 'ssit': 'Bool × Nat', 'n': 'Nat', 'b': 'Bool', 'elem': 'α', 'void': 'Unit', 'self': 'Unit',
+                'node': 'Option α', 'irt': '(Bool × Nat) × Bool × Option α'}[kind]
 
     @staticmethod
     def ret_text(m):
@@ -291,7 +370,11 @@ class Translator(F.Translator):
 
     def ret_kind(self, m):
         """the kind of the returned value, from the *spelling* of the return type (which does not depend on SetType)"""
+        if m.get('kind') == 'CXXConstructorDecl':
+            return 'void'
         t = self.ret_text(m)
+        if re.fullmatch(r'amc::SmallSet<int, .*> &', t):
+            return 'self'
         if t == 'void':
             return 'void'
         if t == 'bool':
@@ -309,6 +392,10 @@ class Translator(F.Translator):
                 return 'n'
             if t.endswith('>::key_compare'):
                 return 'comp'
+            if t.endswith('>::node_type'):
+                return 'node'
+            if t.endswith('>::insert_return_type'):
+                return 'irt'
         raise Unsupported(f'{where(m)}: return type `{t}` of `{m.get("name")}` is outside the translated subset')
 
     # ---- helpers ----------------------------------------------------------------------------------------------------
@@ -329,8 +416,14 @@ class Translator(F.Translator):
             if v[0] != 'pair':
                 raise Unsupported(f'{where(n)}: a pair was expected, found {v[0]}')
             return f'({self.to_term(v[1], kind[1], n)}, {self.to_term(v[2], kind[2], n)})'
-        if kind in ('n', 'b', 'elem', 'void'):
+        if kind in ('n', 'b', 'elem', 'void', 'self', 'node'):
             return super().to_term(v, kind, n)
+        if kind == 'irt':
+            if v[0] == 'rec' and self.irt_fields == ['position', 'inserted', 'node'] and sorted(v[1]) == sorted(self.irt_fields):
+                d = v[1]
+                return (f'({self.to_term(d["position"], "ssit", n)}, {self.to_term(d["inserted"], "b", n)}, '
+                        f'{self.to_term(d["node"], "node", n)})')
+            raise Unsupported(f'{where(n)}: an insert_return_type {{position, inserted, node}} was expected, found {v[0]}')
         raise Unsupported(f'{where(n)}: cannot return a {v[0]} as {kind}')
 
     def from_term(self, term, kind):
@@ -384,7 +477,7 @@ class Translator(F.Translator):
             return self.eval(c, path, cont)
         if ck in ('UncheckedDerivedToBase', 'DerivedToBase'):
             def cont(p, v):
-                if v[0] not in ('vec', 'ovec', 'pit', 'vit', 'sit'):
+                if v[0] not in ('vec', 'ovec', 'pit', 'vit', 'sit', 'snode', 'node', 'ptrvec'):
                     raise Unsupported(f'{where(n)}: derived-to-base cast of a {v[0]} to `{qual(n)}`')
                 return k(p, v)
             return self.eval(c, path, cont)
@@ -417,11 +510,16 @@ class Translator(F.Translator):
             return self.eval(kids(n)[0], path, cont)
         if (ck == 'NoOp' and kd == 'ptr') or (ck == 'ConstructorConversion' and kd == 'ssit'):
             def cont(p, v):
-                if v[0] not in ('vit', 'sit', 'pit'):
+                if v[0] not in ('vit', 'sit', 'pit', 'ovit', 'osit'):
                     raise Unsupported(f'{where(n)}: SmallSet iterator constructed from a {v[0]}')
                 return k(p, v)
             return self.eval(kids(n)[0], path, cont)
         raise Unsupported(f'{where(n)}: functional cast to `{qual(n)}` ({ck})')
+
+    def e_CXXConstCastExpr(self, n, path, k):
+        if n.get('castKind') != 'NoOp':
+            raise Unsupported(f'{where(n)}: const_cast of kind {n.get("castKind")}')
+        return self.passthrough(n, path, k)
 
     def e_SubstNonTypeTemplateParmExpr(self, n, path, k):
         c = kids(n)
@@ -432,6 +530,8 @@ class Translator(F.Translator):
 
     def e_DeclRefExpr(self, n, path, k):
         rd = n.get('referencedDecl', {})
+        if rd.get('kind') == 'VarDecl' and rd.get('name') == 'nullopt' and 'nullopt' not in path.frames[-1]:
+            return k(path, ('nullopt',))
         if rd.get('kind') in ('ParmVarDecl', 'VarDecl'):
             v = self.lookup(path, rd['name'], n)
             if v[0] == 'bt' and v[1] in path.known:
@@ -447,20 +547,18 @@ class Translator(F.Translator):
                     return k(p, ('comp',))
                 if name == '_k':
                     return k(p, ('elem', 'k'))
-            elif v[0] in ('thisptr', 'this'):
+            elif v[0] in ('thisptr', 'this') and (len(v) < 2 or v[1] == 's'):
                 if name == '_vec':
                     return k(p, ('vec',))
                 if name == '_set':
                     return k(p, ('set',))
-            if v[0] == 'other' and p.ovec is not None:
+            if (v[0] == 'other' or (v[0] in ('thisptr', 'this') and len(v) > 1 and v[1] == 'o')) and p.ovec is not None:
                 if name == '_vec':
                     return k(p, ('ovec',))
                 if name == '_set':
                     return k(p, ('oset',))
-            if v[0] == 'pair' and name == 'first':
-                return k(p, v[1])
-            if v[0] == 'pair' and name == 'second':
-                return k(p, v[2])
+            if v[0] in ('pair', 'rec', 'node'):
+                return k(p, self.get_field(v, name, n))
             raise Unsupported(f'{where(n)}: member access `.{name}` on a {v[0]} (the model has no such state)')
         return self.eval(kids(n)[0], path, cont)
 
@@ -479,11 +577,15 @@ class Translator(F.Translator):
         if op == '*':
             def cont(p, v):
                 if v[0] == 'thisptr':
-                    return k(p, ('this',))
+                    return k(p, ('this',) + tuple(v[1:]))
+                if v[0] == 'eptr':
+                    return k(p, ('elem', v[1]))
                 if v[0] == 'vit':
                     return self.deref(p, p.vec, v[1], n, k)
                 if v[0] == 'sit':
                     return self.deref(p, p.set, v[1], n, k)
+                if v[0] == 'rit':
+                    return self.deref(p, v[1], v[2], n, k)
                 if v[0] == 'cursor':
                     if p.cursor is not None:
                         raise Unsupported(f'{where(n)}: the loop iterator is dereferenced after it has been advanced')
@@ -500,7 +602,18 @@ class Translator(F.Translator):
                     p = path.copy()
                     p.cursor = 'next'
                     return k(p, ('void',))
-            raise Unsupported(f'{where(n)}: `++` on something else than the iterator of the recognised merge loop')
+                if v[0] == 'rit' and self.mode == 'range_step':
+                    p = path.copy()
+                    p.frames[-1][name] = ('rit', v[1], F.nat_add(v[2], 1))
+                    return k(p, ('void',))
+            if c.get('kind') == 'DeclRefExpr' and c.get('referencedDecl', {}).get('kind') == 'ParmVarDecl':
+                name = c['referencedDecl']['name']
+                v = self.lookup(path, name, n)
+                if v[0] == 'rit' and self.mode == 'range_step':
+                    p = path.copy()
+                    p.frames[-1][name] = ('rit', v[1], F.nat_add(v[2], 1))
+                    return k(p, ('void',))
+            raise Unsupported(f'{where(n)}: `++` on something else than the iterator of a recognised loop')
         if op in ('!', '-'):
             return super().e_UnaryOperator(n, path, k)
         raise Unsupported(f'{where(n)}: unary operator `{op}` is outside the translated subset')
@@ -508,6 +621,11 @@ class Translator(F.Translator):
     def compare(self, op, a, b, n, path, k):
         if a[0] == b[0] and a[0] in ('vit', 'sit'):
             return super().compare(op, ('it', a[1]), ('it', b[1]), n, path, k)
+        if a[0] == 'elem' and b[0] == 'elem' and op == '<':
+            self.use_extra('ltT')
+            return k(path, ('bt', f'ltT {atom(a[1])} {atom(b[1])}', True))
+        if a[0] == 'rit' and b[0] == 'rit' and a[1] == b[1]:
+            return super().compare(op, ('it', a[2]), ('it', b[2]), n, path, k)
         if a[0] in ('vit', 'sit', 'pit', 'cursor') or b[0] in ('vit', 'sit', 'pit', 'cursor'):
             raise Unsupported(f'{where(n)}: comparison `{op}` of a {a[0]} and a {b[0]}')
         return super().compare(op, a, b, n, path, k)
@@ -534,7 +652,7 @@ class Translator(F.Translator):
         args = [a for a in kids(n)]
         if ty.startswith('amc::SmallSetIterator<int,') and len(args) == 1:
             def cont(p, v):
-                if v[0] not in ('vit', 'sit', 'pit'):
+                if v[0] not in ('vit', 'sit', 'pit', 'ovit', 'osit'):
                     raise Unsupported(f'{where(n)}: SmallSet iterator constructed from a {v[0]}')
                 return k(p, v)
             return self.eval(args[0], path, cont)
@@ -550,10 +668,75 @@ class Translator(F.Translator):
                     raise Unsupported(f'{where(n)}: FindFunctor constructed from a {v[0]}')
                 return k(p, v)
             return self.eval(args[0], path, cont)
+        if ty == 'std::less<int>' and not args:
+            # a default-constructed comparator: NOT the comparator object of the set
+            self.use_extra('lt_default')
+            return k(path, ('comp', 'lt_default'))
         if ty == 'std::less<int>' and len(args) == 1:
             def cont(p, v):
                 if v[0] != 'comp':
                     raise Unsupported(f'{where(n)}: comparator constructed from a {v[0]}')
+                return k(p, v)
+            return self.eval(args[0], path, cont)
+        kd = None
+        try:
+            kd = self.type_kind(ty, None)
+        except Unsupported:
+            pass
+        if kd == 'node':
+            if len(args) == 1:
+                src = peel(args[0])
+                moved = None
+                if src.get('kind') == 'CallExpr' and len(kids(src)) == 2 and \
+                        peel(kids(src)[0]).get('referencedDecl', {}).get('name') == 'move':
+                    moved = self.lvalue_path(kids(src)[1])
+                def cont(p, v):
+                    if v[0] == 'alloc':
+                        return k(p, ('node', ('onone',)))
+                    if v[0] != 'node':
+                        raise Unsupported(f'{where(n)}: node handle constructed from a {v[0]}')
+                    if moved is not None:
+                        p = self.store(p, moved, ('node', ('omoved',)), n)
+                    return k(p, v)
+                return self.eval(args[0], path, cont)
+            if len(args) == 2:
+                def cont(p, vs):
+                    if vs[0][0] != 'elem' or vs[1][0] != 'alloc':
+                        raise Unsupported(f'{where(n)}: node_type({vs[0][0]}, {vs[1][0]})')
+                    return k(p, ('node', ('osome', vs[0][1])))
+                return self.eval_list(args, path, cont)
+        if kd == 'ptrvec':
+            if not args:
+                return k(path, ('ptrvec', '[]'))
+            if len(args) == 1:
+                def cont(p, v):
+                    if v[0] != 'ptrvec':
+                        raise Unsupported(f'{where(n)}: pointer vector constructed from a {v[0]}')
+                    return k(p, v)
+                return self.eval(args[0], path, cont)
+        if kd == 'cmpobj' and not args:
+            return k(path, ('cmpobj', ty))
+        if kd == 'cmpobj' and len(args) == 1:
+            return self.eval(args[0], path, k)
+        if kd == 'sit' and len(args) == 1:
+            def cont(p, v):
+                if v[0] != 'sit':
+                    raise Unsupported(f'{where(n)}: iterator of the backing set constructed from a {v[0]}')
+                return k(p, v)
+            return self.eval(args[0], path, cont)
+        if kd == 'opt' and len(args) == 1:
+            def cont(p, v):
+                if v[0] == 'elem':
+                    return k(p, ('opt', ('osome', v[1])))
+                if v[0] in ('opt', 'nullopt'):
+                    return k(p, v)
+                raise Unsupported(f'{where(n)}: std::optional constructed from a {v[0]}')
+            return self.eval(args[0], path, cont)
+        if (ty == 'std::nullopt_t' or kd in ('irt', 'snode') or ty == 'std::initializer_list<int>') and len(args) == 1:
+            want = 'nullopt' if ty == 'std::nullopt_t' else {'irt': 'rec', 'snode': 'snode'}.get(kd, 'ilist')
+            def cont(p, v):
+                if v[0] != want:
+                    raise Unsupported(f'{where(n)}: `{qual(n)}` constructed from a {v[0]}')
                 return k(p, v)
             return self.eval(args[0], path, cont)
         if ty.startswith('std::pair<'):
@@ -577,15 +760,119 @@ class Translator(F.Translator):
         while callee.get('kind') == 'ImplicitCastExpr':
             callee = kids(callee)[0]
         rd = callee.get('referencedDecl', {})
+        if callee.get('kind') == 'DeclRefExpr' and rd.get('kind') == 'CXXMethodDecl' and rd.get('name') in ('ToVecIt', 'ToSetIt'):
+            # the static helpers ToVecIt / ToSetIt (two overloads each, selected by the iterator type): inlined
+            decl = self.by_id.get(rd.get('id'))
+            if decl is None or not has_body(decl) or len(c) != 3:
+                raise Unsupported(f'{where(n)}: call of `{rd.get("name")}` of an unknown shape')
+            ps = params_of(decl)
+            def cont(p, v):
+                p = p.copy()
+                p.frames.append({ps[0]['name']: v})
+                def kret(q, w):
+                    q = q.copy()
+                    q.frames.pop()
+                    if rd.get('name') == 'ToVecIt':
+                        return self.as_vit(w, q, n, k, 'ToVecIt')
+                    return self.as_sit(w, q, n, k, 'ToSetIt')
+                return self.exec_block([body_of(decl)], p, lambda q: self.fall_off(decl, q, kret), kret)
+            return self.eval(c[1], path, cont)
+        if callee.get('kind') == 'DeclRefExpr' and rd.get('kind') == 'CXXMethodDecl' and rd.get('name') == 'ComputeSortedPtrVec':
+            # a static member with a visible body: inlined
+            decl = self.by_id.get(rd.get('id'))
+            if decl is None or not has_body(decl) or len(c) != 2 or len(params_of(decl)) != 1 or not str(decl.get('_file')).endswith(HEADER):
+                raise Unsupported(f'{where(n)}: call of `{rd.get("name")}` of an unknown shape')
+            ps = params_of(decl)
+            def cont(p, v):
+                if v[0] not in ('vec', 'ovec'):
+                    raise Unsupported(f'{where(n)}: `{rd.get("name")}` applied to a {v[0]}')
+                p = p.copy()
+                p.frames.append({ps[0]['name']: v})
+                def kret(q, w):
+                    q = q.copy()
+                    q.frames.pop()
+                    return k(q, w)
+                return self.exec_block([body_of(decl)], p, lambda q: self.fall_off(decl, q, kret), kret)
+            return self.eval(c[1], path, cont)
         if callee.get('kind') != 'DeclRefExpr' or rd.get('kind') != 'FunctionDecl':
             raise Unsupported(f'{where(n)}: call through something else than a named function')
         name = rd.get('name')
         args = c[1:]
+        if name == 'transform' and len(args) == 4:
+            # std::transform(c.begin(), c.end(), std::back_inserter(v), [](const_reference r) { return std::addressof(r); }):
+            # the pointer vector `v` receives pointers to the elements of the range
+            bi = peel(args[2])
+            lp = None
+            if bi.get('kind') == 'CallExpr' and len(kids(bi)) == 2 and peel(kids(bi)[0]).get('referencedDecl', {}).get('name') == 'back_inserter':
+                lp = self.lvalue_path(kids(bi)[1])
+            lam = peel(args[3])
+            ok = lam.get('kind') == 'LambdaExpr'
+            if ok:
+                ops = [m for r in kids(lam) if r.get('kind') == 'CXXRecordDecl' for m in kids(r)
+                       if m.get('kind') == 'CXXMethodDecl' and m.get('name') == 'operator()']
+                ok = len(ops) == 1 and len(params_of(ops[0])) == 1 and has_body(ops[0])
+                if ok:
+                    st = kids(body_of(ops[0]))
+                    ok = len(st) == 1 and st[0].get('kind') == 'ReturnStmt' and len(kids(st[0])) == 1
+                    if ok:
+                        e = peel(kids(st[0])[0])
+                        ok = e.get('kind') == 'CallExpr' and len(kids(e)) == 2 \
+                            and peel(kids(e)[0]).get('referencedDecl', {}).get('name') == 'addressof' \
+                            and peel(kids(e)[1]).get('referencedDecl', {}).get('name') == params_of(ops[0])[0].get('name')
+            if lp is None or lp[1] or not ok:
+                raise Unsupported(f'{where(n)}: std::transform of a shape other than taking the addresses of a range into a pointer vector')
+            def cont(p, vs):
+                first, last = vs
+                old = self.lookup(p, lp[0], n)
+                if old[0] != 'ptrvec':
+                    raise Unsupported(f'{where(n)}: std::back_inserter of a {old[0]}')
+                if first[0] == 'vit' and last[0] == 'vit':
+                    sub = self.sub_list(p.vec, first[1], last[1])
+                elif first[0] == 'ovit' and last[0] == 'ovit':
+                    sub = self.sub_list(p.ovec, first[1], last[1])
+                else:
+                    raise Unsupported(f'{where(n)}: std::transform over a range ({first[0]}, {last[0]})')
+                q = p.copy()
+                q.frames[-1][lp[0]] = ('ptrvec', sub if old[1] == '[]' else f'{atom(old[1])} ++ {atom(sub)}')
+                return k(q, ('void',))
+            return self.eval_list(args[:2], path, cont)
+        if name in ('sort', 'stable_sort') and len(args) == 3:
+            # std::sort(v.begin(), v.end(), [](const_pointer p1, const_pointer p2) { return comp(*p1, *p2); }) on a pointer vector
+            def cont(p, vs):
+                first, last, pred = vs
+                if first[0] != 'pvit' or last[0] != 'pvit' or first[1] != last[1] or first[2] != '0' \
+                        or last[2] != f'{atom(last[1])}.length' or pred[0] != 'pred':
+                    raise Unsupported(f'{where(n)}: std::{name}({first[0]}, {last[0]}, {pred[0]}): only a whole pointer vector with a lambda is known')
+                lp = self.lvalue_path(kids(kids(args[0])[0])[0]) if args[0].get('kind') == 'CXXMemberCallExpr' else None
+                if lp is None or lp[1] or self.lookup(p, lp[0], n) != ('ptrvec', first[1]):
+                    raise Unsupported(f'{where(n)}: std::{name} on something else than a local pointer vector')
+                q = p.copy()
+                fn = 'sortedBy' if name == 'sort' else 'stableSortedBy'
+                q.frames[-1][lp[0]] = ('ptrvec', f'{fn} ({pred[1]}) {atom(first[1])}')
+                return k(q, ('void',))
+            return self.eval_list(args, path, cont)
+        if name == 'lexicographical_compare' and len(args) == 5:
+            def cont(p, vs):
+                l1 = self.whole_range(vs[0], vs[1], p, n)
+                l2 = self.whole_range(vs[2], vs[3], p, n)
+                if vs[4][0] != 'cmpobj':
+                    raise Unsupported(f'{where(n)}: std::lexicographical_compare with a {vs[4][0]} as comparison')
+                self.check_less_functor(vs[4][1], n)
+                self.use_extra('ltT')
+                return k(p, ('bt', f'vecLess ltT {atom(l1)} {atom(l2)}', True))
+            return self.eval_list(args, path, cont)
+        if name == 'is_permutation' and len(args) == 4:
+            def cont(p, vs):
+                l1 = self.whole_range(vs[0], vs[1], p, n)
+                l2 = self.whole_range(vs[2], vs[3], p, n)
+                self.use_extra('eqT')
+                return k(p, ('bt', f'isPermutation eqT {atom(l1)} {atom(l2)}', True))
+            return self.eval_list(args, path, cont)
         if name in ('forward', 'move') and len(args) == 1:
             def cont(p, v):
                 if v[0] == 'lref':
                     return self.deref(p, p.vec, v[1], n, k)
-                if v[0] != 'elem':
+                if v[0] not in ('elem', 'node', 'snode', 'opt'):
                     raise Unsupported(f'{where(n)}: std::{name} of a {v[0]}')
                 return k(p, v)
             return self.eval(args[0], path, cont)
@@ -619,10 +906,135 @@ class Translator(F.Translator):
             return self.eval_list(args, path, cont)
         raise Unsupported(f'{where(n)}: call of function `{name}` with {len(args)} argument(s) is outside the translated subset')
 
+    def whole_range(self, a, b, p, n):
+        """the list of a range [begin, end) of one of the four containers or of a local pointer vector"""
+        src = {'vit': p.vec, 'sit': p.set, 'ovit': p.ovec, 'osit': p.oset}
+        if a[0] == b[0] and a[0] in src and src[a[0]] is not None:
+            lst = src[a[0]]
+            if a[1] == '0' and b[1] == f'{atom(lst)}.length':
+                return lst
+        if a[0] == 'pvit' and b[0] == 'pvit' and a[1] == b[1] and a[2] == '0' and b[2] == f'{atom(a[1])}.length':
+            return a[1]
+        if a[0] == 'pit' or b[0] == 'pit':
+            raise Unsupported(f'{where(n)}: a range given by iterators received as parameters')
+        raise Unsupported(f'{where(n)}: a range ({a[0]}, {b[0]}) that is not a whole container')
+
+    def check_less_functor(self, name, n):
+        """every `operator()` of the local struct has to be `<` of the element type on its (dereferenced) arguments"""
+        d = self.local_structs.get(name)
+        ops = [m for m in kids(d) if m.get('kind') == 'CXXMethodDecl' and m.get('name') == 'operator()'] if d else []
+        if not ops:
+            raise Unsupported(f'{where(n)}: the comparison object `{name}` has no operator()')
+        for m in ops:
+            ps = params_of(m)
+            if len(ps) != 2 or not has_body(m):
+                raise Unsupported(f'{where(m)}: `{name}::operator()` of an unknown shape')
+            sub = Path()
+            fr = {}
+            for i, q in enumerate(ps):
+                kd = self.type_kind(qual(q), q)
+                if kd == 'ptr':
+                    fr[q['name']] = ('eptr', f'a{i}')
+                elif kd == 'elem':
+                    fr[q['name']] = ('elem', f'a{i}')
+                else:
+                    raise Unsupported(f'{where(q)}: parameter of `{name}::operator()` of kind {kd}')
+            sub.frames = [fr]
+            saved = (self.mode, self.param_names)
+            self.mode, self.param_names = 'functor2', {'a0', 'a1'}
+            def kret(p, v):
+                return Leaf(None, self.to_term(v, 'b', m), None, None)
+            def nofall(p):
+                raise Unsupported(f'{where(m)}: control reaches the end of `{name}::operator()`')
+            tree = self.exec_block([body_of(m)], sub, nofall, kret)
+            self.mode, self.param_names = saved
+            if not isinstance(tree, Leaf) or tree.ret != 'ltT a0 a1':
+                raise Unsupported(f'{where(m)}: `{name}::operator()` is not `<` of the element type on its two arguments '
+                                  f'(found `{getattr(tree, "ret", "a branching body")}`)')
+
+    def e_LambdaExpr(self, n, path, k):
+        """a lambda `[](const_pointer p1, const_pointer p2) { return …; }` given to a library algorithm: executed
+        symbolically on its own, emitted as an auxiliary Bool-valued definition on the pointees"""
+        c = kids(n)
+        rec = [x for x in c if x.get('kind') == 'CXXRecordDecl']
+        body = [x for x in c if x.get('kind') == 'CompoundStmt']
+        caps = [x for x in c if x.get('kind') == 'DeclRefExpr']
+        if len(rec) != 1 or len(body) != 1 or caps:
+            raise Unsupported(f'{where(n)}: lambda expression of an unknown shape (captures are not known here)')
+        ops = [m for m in kids(rec[0]) if m.get('kind') == 'CXXMethodDecl' and m.get('name') == 'operator()']
+        if len(ops) != 1:
+            raise Unsupported(f'{where(n)}: lambda without a single operator()')
+        ps = params_of(ops[0])
+        if len(ps) != 2 or any(self.type_kind(qual(q), q) != 'ptr' for q in ps) or self.ret_text(ops[0]) != 'bool':
+            raise Unsupported(f'{where(n)}: only a binary predicate on pointers to elements is known as a lambda')
+        names = [q['name'] + '_' if q['name'] in RESERVED else q['name'] for q in ps]
+        sub = Path()
+        sub.frames = [{q['name']: ('eptr', nm) for q, nm in zip(ps, names)}]
+        saved = (self.mode, self.param_names)
+        self.mode, self.param_names = 'functor', set(names)
+        def kret(p, v):
+            return Leaf(None, self.to_term(v, 'b', n), None, None)
+        def nofall(p):
+            raise Unsupported(f'{where(n)}: control reaches the end of the lambda')
+        tree = self.exec_block(body, sub, nofall, kret)
+        self.mode, self.param_names = saved
+        for t in self.walk(tree):
+            if isinstance(t, (UB, MatchIdx, Bind, MatchOpt)):
+                raise Unsupported(f'{where(n)}: the lambda body does more than comparing its arguments')
+        lines = self.emit(tree, 1)
+        uses_default = any('lt_default' in ln for ln in lines)
+        name = f'{self.cur_lean}_pred'
+        if name not in self.aux_names:
+            self.aux_names.append(name)
+            sig = f'def {name} (lt : α → α → Bool)' + (' (lt_default : α → α → Bool)' if uses_default else '') + \
+                  ''.join(f' ({nm} : α)' for nm in names) + ' : Bool :='
+            doc = (f'/-- smallset.hpp:{line_of(n)} the lambda given to the sort of `ComputeSortedPtrVec`, on the pointees; '
+                   f'`lt_default` is a DEFAULT-CONSTRUCTED comparator (`Compare()`), not the comparator object of the set; '
+                   f'comparator calls are not counted -/')
+            self.aux_defs.append('\n'.join([doc, sig] + lines) + '\n')
+        return k(path, ('pred', f'{name} lt' + (' lt_default' if uses_default else '')))
+
     def e_CXXOperatorCallExpr(self, n, path, k):
-        if self.mode != 'functor':
-            raise Unsupported(f'{where(n)}: call of an overloaded operator is outside the translated subset')
-        return super().e_CXXOperatorCallExpr(n, path, k)
+        if self.mode in ('functor', 'functor2'):
+            return super().e_CXXOperatorCallExpr(n, path, k)
+        c = kids(n)
+        callee = c[0]
+        while callee.get('kind') == 'ImplicitCastExpr':
+            callee = kids(callee)[0]
+        name = callee.get('referencedDecl', {}).get('name')
+        if (name == 'operator*' and len(c) == 2) or (name == 'operator=' and len(c) == 3):
+            # `*optional`, `optional = …`, `std::tie(a, b) = pair`
+            return super().e_CXXOperatorCallExpr(n, path, k)
+        if name in ('operator==', 'operator<') and len(c) == 3:
+            rid = callee.get('referencedDecl', {}).get('id')
+            def cont(p, vs):
+                a, b = vs
+                sets = {'set': p.set, 'oset': p.oset}
+                if a[0] in sets and b[0] in sets and a[0] != b[0]:
+                    # operator== / operator< of the backing set (a template parameter): std::equal on equal sizes /
+                    # std::lexicographical_compare, with the operators of the ELEMENT type
+                    ex, fn = ('eqT', 'vecEq') if name == 'operator==' else ('ltT', 'vecLess')
+                    self.use_extra(ex)
+                    return k(p, ('bt', f'{fn} {ex} {atom(sets[a[0]])} {atom(sets[b[0]])}', True))
+                objs = {'this': 's', 'other': 'o'}
+                wa = 'o' if (a[0] == 'other' or (a[0] == 'this' and len(a) > 1 and a[1] == 'o')) else 's' if a[0] == 'this' else None
+                wb = 'o' if (b[0] == 'other' or (b[0] == 'this' and len(b) > 1 and b[1] == 'o')) else 's' if b[0] == 'this' else None
+                if wa and wb and wa != wb and rid in self.targets and self.targets[rid] in self.sigs:
+                    lean = self.targets[rid]
+                    for ex in self.extras_of.get(lean, []):
+                        self.use_extra(ex)
+                    st = {'s': state_term(p.vec, p.set), 'o': state_term(p.ovec, p.oset)}
+                    q = p.copy()
+                    var = self.fresh(q, 'r')
+                    q.csyms = q.csyms + (f'{var}.2',)
+                    call = ' '.join([lean, 'lt', 'N', arg(st[wa]), arg(st[wb])] + self.extras_of.get(lean, []))
+                    return Bind(call, var, k(q, self.from_term(f'{var}.1', self.sigs[lean][1])), line_of(n))
+                if wa and wb and rid in self.targets and self.targets[rid] not in self.sigs:
+                    raise Unsupported(f'{where(n)}: `{name}` of SmallSet is called before it is generated: it calls itself or a member generated later '
+                                      f'(recursion is outside the translated subset)')
+                raise Unsupported(f'{where(n)}: `{name}` applied to a {a[0]} and a {b[0]}')
+            return self.eval_list(c[1:], path, cont)
+        raise Unsupported(f'{where(n)}: call of the overloaded operator `{name}` is outside the translated subset')
 
     def e_CXXMemberCallExpr(self, n, path, k):
         c = kids(n)
@@ -635,7 +1047,13 @@ class Translator(F.Translator):
             if obj[0] in ('thisptr', 'this'):
                 if self.mode == 'functor':
                     raise Unsupported(f'{where(n)}: member call `{name}` inside FindFunctor')
+                if len(obj) > 1 and obj[1] == 'o':
+                    return self.other_member(n, me, name, args, p, k)
                 return self.call_member(n, me, name, args, p, k)
+            if obj[0] == 'oset':
+                return self.eval_list(args, p, lambda q, vs: self.oset_prim(n, name, vs, q, k))
+            if obj[0] == 'ptrvec' and not args and name in ('begin', 'end'):
+                return k(p, ('pvit', obj[1], '0' if name == 'begin' else f'{atom(obj[1])}.length'))
             if obj[0] == 'vec':
                 return self.eval_list(args, p, lambda q, vs: self.vec_prim(n, name, vs, q, k))
             if obj[0] == 'set':
@@ -644,6 +1062,24 @@ class Translator(F.Translator):
                 return self.eval_list(args, p, lambda q, vs: self.ovec_prim(n, name, vs, q, k))
             if obj[0] == 'other':
                 return self.other_member(n, me, name, args, p, k)
+            if obj[0] == 'node' and not args and name in ('operator bool', 'empty'):
+                if obj[1][0] == 'omoved':
+                    raise Unsupported(f'{where(n)}: `{name}` of a moved-from node handle')
+                has = obj[1][0] == 'osome'
+                return k(p, ('b', has if name == 'operator bool' else not has))
+            if obj[0] == 'snode' and not args:
+                # the node handle of the backing set (a template parameter): an optional value
+                if name in ('operator bool', 'empty'):
+                    has = obj[1][0] == 'osome'
+                    return k(p, ('b', has if name == 'operator bool' else not has))
+                if name == 'value':
+                    if obj[1][0] == 'osome':
+                        return k(p, ('elem', obj[1][1]))
+                    return UB('value() of an empty node handle of the backing set', line_of(n))
+                if name == 'get_allocator':
+                    return k(p, ('alloc',))
+            if obj[0] == 'ilist' and not args and name in ('begin', 'end'):
+                return k(p, ('rit', obj[1], '0' if name == 'begin' else f'{atom(obj[1])}.length'))
             if obj[0] == 'pit' and not args:
                 if name == 'toVecIt':
                     return self.as_vit(obj, p, n, k, 'toVecIt()')
@@ -687,6 +1123,23 @@ class Translator(F.Translator):
             p = path.copy()
             p.vec = '[]'
             return k(p, ('void',))
+        if name == 'erase' and len(vs) == 2:
+            def with_a(p0, a):
+                def with_b(p1, b):
+                    def go(p):
+                        p = p.copy()
+                        p.vec = f'{atom(vec)}.take {atom(a[1])} ++ {atom(vec)}.drop {atom(b[1])}'
+                        return k(p, ('vit', a[1]))
+                    return self.fork(p1, f'{a[1]} ≤ {b[1]}', line_of(n),
+                                     lambda p: self.fork(p, f'{b[1]} ≤ {atom(vec)}.length', line_of(n), go,
+                                                         lambda q: UB('_vec.erase of a range that ends after end()', None), note='_vec.erase: last <= end()'),
+                                     lambda p: UB('_vec.erase of a range with last before first', None), note='_vec.erase: first <= last')
+                return self.as_vit(vs[1], p0, n, with_b, '_vec.erase')
+            return self.as_vit(vs[0], path, n, with_a, '_vec.erase')
+        if name == 'swap' and len(vs) == 1 and vs[0][0] == 'ovec':
+            p = path.copy()
+            p.vec, p.ovec = path.ovec, path.vec
+            return k(p, ('void',))
         raise Unsupported(f'{where(n)}: vector member `{name}` with argument kinds ({", ".join(v[0] for v in vs)}) is outside the translated subset')
 
     def set_prim(self, n, name, vs, path, k):
@@ -711,6 +1164,55 @@ class Translator(F.Translator):
         if name == 'insert' and len(vs) == 2 and vs[0][0] == 'vit' and vs[1][0] == 'vit':
             p = path.copy()
             p.set = f'Sets.insertAll lt {atom(st)} {atom(self.sub_list(path.vec, vs[0][1], vs[1][1]))}'
+            return k(p, ('void',))
+        if name == 'get_allocator' and not vs:
+            return k(path, ('alloc',))
+        if name == 'insert' and len(vs) == 2 and vs[0][0] == 'rit' and vs[1][0] == 'rit' and vs[0][1] == vs[1][1]:
+            p = path.copy()
+            p.set = f'Sets.insertAll lt {atom(st)} {atom(self.sub_list(vs[0][1], vs[0][2], vs[1][2]))}'
+            return k(p, ('void',))
+        if name == 'insert' and len(vs) == 2 and vs[0][0] == 'sit' and vs[1][0] == 'elem':
+            # insertion with a hint into the backing set (a template parameter): the result of plain insertion, whatever the hint
+            p = path.copy()
+            var = self.fresh(p, 'r')
+            p.set = f'{var}.1'
+            return Let(var, f'FS.insertVal lt {atom(st)} {atom(vs[1][1])}', k(p, ('sit', f'{var}.2.1')), line_of(n))
+        if name == 'erase' and len(vs) == 2 and vs[0][0] in ('sit', 'pit') and vs[1][0] in ('sit', 'pit'):
+            def with_a(p0, a):
+                def with_b(p1, b):
+                    def go(p):
+                        p = p.copy()
+                        p.set = f'{atom(st)}.take {atom(a[1])} ++ {atom(st)}.drop {atom(b[1])}'
+                        return k(p, ('sit', a[1]))
+                    return self.fork(p1, f'{a[1]} ≤ {b[1]}', line_of(n),
+                                     lambda p: self.fork(p, f'{b[1]} ≤ {atom(st)}.length', line_of(n), go,
+                                                         lambda q: UB('_set.erase of a range that ends after end()', None), note='_set.erase: last <= end()'),
+                                     lambda p: UB('_set.erase of a range with last before first', None), note='_set.erase: first <= last')
+                return self.as_sit(vs[1], p0, n, with_b, '_set.erase')
+            return self.as_sit(vs[0], path, n, with_a, '_set.erase')
+        if name == 'extract' and len(vs) == 1 and vs[0][0] == 'sit':
+            # extract(position): the element leaves the backing set in its node handle
+            def got(p, v):
+                p = p.copy()
+                p.set = f'{atom(st)}.eraseIdx {atom(vs[0][1])}'
+                return k(p, ('snode', ('osome', v[1])))
+            return self.deref(path, st, vs[0][1], n, got)
+        if name == 'extract' and len(vs) == 1 and vs[0][0] == 'elem':
+            # extract(key): `_set.find(key)`, then as above; an empty node handle when absent
+            p = path.copy()
+            var = self.fresh(p, 'r')
+            iv = self.fresh(p, 'i')
+            pa, pb = p.copy(), p.copy()
+            def got(q, v):
+                q = q.copy()
+                q.set = f'{atom(st)}.eraseIdx {iv}'
+                return k(q, ('snode', ('osome', v[1])))
+            return Let(var, f'Sets.findC lt {atom(st)} {atom(vs[0][1])}',
+                       MatchOpt(f'{var}.1', iv, k(pa, ('snode', ('onone',))), self.deref(pb, st, iv, n, got), line_of(n),
+                                what='the backing set: key absent / found at an index'), line_of(n))
+        if name == 'swap' and len(vs) == 1 and vs[0][0] == 'oset':
+            p = path.copy()
+            p.set, p.oset = path.oset, path.set
             return k(p, ('void',))
         if name == 'find' and len(vs) == 1 and vs[0][0] == 'elem':
             return k(path, ('sit', f'(Sets.findC lt {atom(st)} {atom(vs[0][1])}).1.getD {atom(st)}.length'))
@@ -751,13 +1253,48 @@ class Translator(F.Translator):
             p = path.copy()
             p.cursor = 'erase'
             return k(p, ('cur_erase',))
+        if self.mode == 'member' and path.ovec is not None and not vs:
+            if name in ('begin', 'cbegin'):
+                return k(path, ('ovit', '0'))
+            if name in ('end', 'cend'):
+                return k(path, ('ovit', f'{atom(path.ovec)}.length'))
+            if name == 'size':
+                return k(path, ('n', f'{atom(path.ovec)}.length'))
         raise Unsupported(f'{where(n)}: member `{name}` of the inline vector of the other set is outside the recognised loop shape')
+
+    def oset_prim(self, n, name, vs, path, k):
+        """`o._set`: read access only"""
+        if self.mode == 'member' and path.oset is not None and not vs:
+            if name in ('begin', 'cbegin'):
+                return k(path, ('osit', '0'))
+            if name in ('end', 'cend'):
+                return k(path, ('osit', f'{atom(path.oset)}.length'))
+            if name == 'size':
+                return k(path, ('n', f'{atom(path.oset)}.length'))
+        raise Unsupported(f'{where(n)}: member `{name}` of the backing set of the other set is outside the translated subset')
 
     def other_member(self, n, me, name, args, path, k):
         """members called on the other set `o` (merge): only `o.isSmall()`, inlined on o's state"""
         decl = self.by_id.get(me.get('referencedMemberDecl'))
         if decl is not None and name == 'isSmall' and not args and self.targets.get(decl['id']) == 'isSmall' and path.oset is not None:
             return k(path, ('bt', f'isSmallOf {arg(state_term(path.ovec, path.oset))}', True))
+        if decl is not None and path.oset is not None and decl['id'] in self.targets and self.is_const(decl) \
+                and self.targets[decl['id']] in self.sigs and not self.sigs[self.targets[decl['id']]][0] and not args:
+            lean = self.targets[decl['id']]
+            p = path.copy()
+            var = self.fresh(p, 'r')
+            p.csyms = p.csyms + (f'{var}.2',)
+            return Bind(' '.join([lean, 'lt', 'N', arg(state_term(p.ovec, p.oset))]), var,
+                        k(p, self.from_term(f'{var}.1', self.sigs[lean][1])), line_of(n))
+        if decl is not None and path.oset is not None and has_body(decl) and self.is_const(decl) and not args \
+                and str(decl.get('_file')).endswith(HEADER) and len(path.frames) <= 8:
+            p = path.copy()
+            p.frames.append({'$self': 'o'})
+            def kret(q, v):
+                q = q.copy()
+                q.frames.pop()
+                return k(q, v)
+            return self.exec_block([body_of(decl)], p, lambda q: self.fall_off(decl, q, kret), kret)
         raise Unsupported(f'{where(n)}: member `{name}` called on the other set')
 
     def call_member(self, n, me, name, args, path, k):
@@ -773,12 +1310,37 @@ class Translator(F.Translator):
             def cont(p, vs):
                 if len(vs) != len(pk):
                     raise Unsupported(f'{where(n)}: call of `{name}` with {len(vs)} arguments')
-                terms = [atom(self.to_term(v, kd, n)) for v, kd in zip(vs, pk)]
+                terms = []
+                i = 0
+                while i < len(pk):
+                    v, kd = vs[i], pk[i]
+                    if kd == 'range':
+                        if i + 1 >= len(pk) or pk[i + 1] != 'range' or v[0] != 'rit' or vs[i + 1][0] != 'rit' or v[1] != vs[i + 1][1]:
+                            raise Unsupported(f'{where(n)}: call of `{name}` with something else than an input range')
+                        terms.append(atom(self.sub_list(v[1], v[2], vs[i + 1][2])))
+                        i += 1
+                    elif kd == 'ilist':
+                        if v[0] != 'ilist':
+                            raise Unsupported(f'{where(n)}: call of `{name}` with a {v[0]} for an initializer_list')
+                        terms.append(atom(v[1]))
+                    elif kd in ('node', 'comp', 'alloc'):
+                        raise Unsupported(f'{where(n)}: call of `{name}`: a parameter of kind {kd} cannot be passed')
+                    else:
+                        terms.append(atom(self.to_term(v, kd, n)))
+                    i += 1
                 p = p.copy()
+                for ex in self.extras_of.get(lean, []):
+                    self.use_extra(ex)
+                call = ' '.join([lean, 'lt', 'N', arg(state_term(p.vec, p.set))] + terms + self.extras_of.get(lean, []))
+                if self.is_const(decl) and self.memo_const and call in p.memo:
+                    # the same const member on the same state: the value already bound (its calls are counted again)
+                    var = p.memo[call]
+                    p.csyms = p.csyms + (f'{var}.2',)
+                    return k(p, self.from_term(f'{var}.1', rk))
                 var = self.fresh(p, 'r')
-                call = ' '.join([lean, 'lt', 'N', arg(state_term(p.vec, p.set))] + terms)
                 if self.is_const(decl):
                     p.csyms = p.csyms + (f'{var}.2',)
+                    p.memo[call] = var
                     return Bind(call, var, k(p, self.from_term(f'{var}.1', rk)), line_of(n))
                 p.vec, p.set = f'{var}.1.vec', f'{var}.1.set'
                 p.csyms = p.csyms + (f'{var}.2.2',)
@@ -814,6 +1376,11 @@ class Translator(F.Translator):
         if stmts and stmts[0].get('kind') == 'ForStmt' and self.mode == 'member' and path.ovec is not None:
             s, rest = stmts[0], stmts[1:]
             return self.merge_loop(s, path, lambda p: self.exec_block(rest, p, knext, kret))
+        if stmts and stmts[0].get('kind') == 'DeclStmt' and len(kids(stmts[0])) == 1 and kids(stmts[0])[0].get('kind') == 'CXXRecordDecl':
+            # a local struct (the comparison functor of operator<): remembered, checked where it is used
+            d = kids(stmts[0])[0]
+            self.local_structs[d.get('name')] = d
+            return self.exec_block(stmts[1:], path, knext, kret)
         if stmts and stmts[0].get('kind') == 'DeclStmt':
             for d in kids(stmts[0]):
                 if d.get('kind') == 'VarDecl' and len(kids(d)) == 1 and self.type_kind(qual(d), d) == 'ff':
@@ -901,12 +1468,21 @@ class Translator(F.Translator):
     def translate(self, decl, lean):
         self.mode = 'member'
         self.loops = []
+        self.aux_defs, self.aux_names, self.extras = [], [], []
+        self.cur_lean = lean
+        self.memo_const = lean.startswith('op_')
+        ctor = decl.get('kind') == 'CXXConstructorDecl'
         ps = [p for p in params_of(decl)]
         sel = self.sel_kinds(decl)
+        self.cur_cpp = f'{decl.get("name")}({", ".join(sel)})'
         rk = self.ret_kind(decl)
-        names, kinds = [], []
+        names, kinds, ltys = [], [], []
         path = Path()
-        for p, sk in zip(ps, sel):
+        node_param = None
+        i = 0
+        while i < len(ps):
+            p, sk = ps[i], sel[i]
+            i += 1
             if sk == 'ignored':
                 continue
             nm = p.get('name')
@@ -914,54 +1490,236 @@ class Translator(F.Translator):
                 raise Unsupported(f'{where(decl)}: unnamed parameter')
             lnm = nm + '_' if nm in RESERVED else nm
             if sk in ('cref', 'rref'):
-                kinds.append('elem'); names.append(lnm)
+                kinds.append('elem'); names.append(lnm); ltys.append('α')
                 path.frames[-1][nm] = ('elem', lnm)
             elif sk == 'iter':
-                kinds.append('ssit'); names.append(lnm)
+                kinds.append('ssit'); names.append(lnm); ltys.append('Bool × Nat')
                 path.frames[-1][nm] = ('pit', f'{lnm}.1', f'{lnm}.2')
+            elif sk == 'range':
+                if i >= len(ps) or sel[i] != 'range' or (nm, ps[i].get('name')) != ('first', 'last'):
+                    raise Unsupported(f'{where(decl)}: an input range is expected to be two consecutive parameters `first`, `last`')
+                kinds += ['range', 'range']; names.append('vs'); ltys.append('List α')
+                path.frames[-1][nm] = ('rit', 'vs', '0')
+                path.frames[-1][ps[i]['name']] = ('rit', 'vs', 'vs.length')
+                i += 1
+            elif sk == 'ilist':
+                kinds.append('ilist'); names.append(lnm); ltys.append('List α')
+                path.frames[-1][nm] = ('ilist', lnm)
+            elif sk == 'comp':
+                kinds.append('comp')
+                path.frames[-1][nm] = ('comp',)        # the comparator of the model is the comparator object handed to the backing set
+            elif sk == 'alloc':
+                kinds.append('alloc')
+                path.frames[-1][nm] = ('alloc',)
+            elif sk == 'node':
+                if node_param is not None:
+                    raise Unsupported(f'{where(decl)}: two node handles')
+                kinds.append('node'); names.append(lnm); ltys.append('Option α')
+                node_param = (nm, lnm)
             elif sk == 'other':
                 if nm != 'o':
                     raise Unsupported(f'{where(decl)}: the other set is expected to be called `o`')
+                kinds.append('other')
                 path.frames[-1][nm] = ('other',)
                 path.ovec, path.oset = 'o.vec', 'o.set'
             else:
                 raise Unsupported(f'{where(decl)}: parameter `{nm}` of type `{dq(p)}`')
         self.param_names = set(names)
-        const = self.is_const(decl)
+        const = (not ctor) and self.is_const(decl)
         two = path.ovec is not None
+        if ctor:
+            path.vec, path.set = None, None
+        out_modes = set()
         def kret(p, v):
             if len(p.frames) != 1:
                 raise Unsupported(f'{where(decl)}: internal error, unbalanced frames')
             if const and (p.vec != 's.vec' or p.set != 's.set'):
                 raise Unsupported(f'{where(decl)}: const member `{decl.get("name")}` modifies the content')
+            if p.vec is None or p.set is None:
+                raise Unsupported(f'{where(decl)}: a data member is never initialised')
             ret = self.to_term(v, rk, decl)
+            if node_param is not None:
+                nv = p.frames[0][node_param[0]]
+                if nv[1][0] == 'omoved':
+                    out_modes.add('moved')
+                else:
+                    out_modes.add('kept')
+                    ret = f'({ret}, {self.node_term(nv[1], decl)})'
             if const:
                 return Leaf(None, ret, p.calls_term(), None)
             st = state_term(p.vec, p.set)
             if two:
                 st = f'{st}, {state_term(p.ovec, p.oset)}'
             return Leaf(st, ret, p.calls_term(), None)
-        tree = self.exec_block([body_of(decl)], path, lambda p: self.fall_off(decl, p, kret), kret)
-        sig_params = ''.join(f' ({nm} : {self.lean_type(kd)})' for nm, kd in zip(names, kinds))
+        def run(p):
+            if ctor:
+                return self.ctor_inits(decl, p, lambda q: self.exec_block([body_of(decl)], q, lambda r: kret(r, ('void',)), kret))
+            return self.exec_block([body_of(decl)], p, lambda q: self.fall_off(decl, q, kret), kret)
+        if node_param is not None:
+            pa, pb = path.copy(), path.copy()
+            var = self.fresh(pb, 'x')
+            pa.frames[-1][node_param[0]] = ('node', ('onone',))
+            pb.frames[-1][node_param[0]] = ('node', ('osome', var))
+            tree = MatchOpt(node_param[1], var, run(pa), run(pb), line_of(decl))
+        else:
+            tree = run(path)
+        if len(out_modes) > 1:
+            raise Unsupported(f'{where(decl)}: the node handle passed in is moved from on some paths only')
+        sig_params = ''.join(f' ({nm} : {ty})' for nm, ty in zip(names, ltys))
         if two:
             sig_params = ' (o : Sets.SSet α)' + sig_params
-        rty0 = atom(self.lean_type(rk)) if isinstance(rk, tuple) or rk == 'ssit' else self.lean_type(rk)
+        sig_params += ''.join(f' ({ex} : α → α → Bool)' for ex in self.extras)
+        self.extras_of[lean] = list(self.extras)
+        rty0 = self.lean_type(rk)
+        if node_param is not None and out_modes == {'kept'}:
+            rty0 = f'({atom(rty0) if "×" in rty0 else rty0} × Option α)'
+        elif '×' in rty0:
+            rty0 = atom(rty0)
         if const:
             rty = f'Option ({rty0} × Nat)'
         elif two:
             rty = f'Option (Sets.SSet α × Sets.SSet α × {rty0} × Nat)'
         else:
             rty = f'Option (Sets.SSet α × {rty0} × Nat)'
-        out = []
+        out = list(self.aux_defs)
         if self.loops:
             out.append(self.translate_step(decl, *self.loops[0]))
             self.mode = 'member'
-        what = 'returned value' if not two else 'state of the other set, returned value'
-        out += [self.header(decl, const, what),
-                f'def {lean} (lt : α → α → Bool) (N : Nat) (s : Sets.SSet α){sig_params} : {rty} :=']
+        what = 'returned value' if (not two or const) else 'state of the other set, returned value'
+        if node_param is not None and out_modes == {'kept'}:
+            what = what.replace('returned value', '(returned value, node handle left to the caller)')
+        if ctor:
+            head = f'def {lean} (lt : α → α → Bool) (N : Nat){sig_params} : {rty} :='
+        else:
+            head = f'def {lean} (lt : α → α → Bool) (N : Nat) (s : Sets.SSet α){sig_params} : {rty} :='
+        out += [self.header(decl, const, what), head]
         out += self.emit(tree, 1)
         self.sigs[lean] = (kinds, rk)
+        self.ctors = getattr(self, 'ctors', set())
+        if ctor:
+            self.ctors.add(lean)
         return '\n'.join(out) + '\n'
+
+    def ctor_inits(self, decl, path, k):
+        """the member initialiser list of a constructor: `_vec` (default: empty), `_set(comp, alloc)` (empty set holding the
+        comparator of the model), or a delegation to another generated constructor"""
+        inits = [c for c in kids(decl) if c.get('kind') == 'CXXCtorInitializer']
+        p = path.copy()
+        def do(rest, p):
+            if not rest:
+                return k(p)
+            ci = rest[0]
+            e = kids(ci)
+            if len(e) != 1:
+                raise Unsupported(f'{where(decl)}: constructor initialiser with {len(e)} expressions')
+            e = e[0]
+            if 'anyInit' in ci and ci['anyInit'].get('name') == '_vec':
+                ce = peel(e)
+                if ce.get('kind') != 'CXXConstructExpr' or kids(ce):
+                    raise Unsupported(f'{where(e)}: `_vec` is initialised otherwise than by default')
+                q = p.copy()
+                q.vec = '[]'
+                return do(rest[1:], q)
+            if 'anyInit' in ci and ci['anyInit'].get('name') == '_set':
+                ce = peel(e)
+                if ce.get('kind') != 'CXXConstructExpr':
+                    raise Unsupported(f'{where(e)}: `_set` is initialised by a {ce.get("kind")}')
+                def cont(q, vs):
+                    if [v[0] for v in vs] != ['comp', 'alloc']:
+                        raise Unsupported(f'{where(e)}: `_set` constructed from ({", ".join(v[0] for v in vs)})')
+                    q = q.copy()
+                    q.set = '[]'
+                    return do(rest[1:], q)
+                return self.eval_list(kids(ce), p, cont)
+            if 'delegatingInit' in ci:
+                ce = peel(e)
+                if ce.get('kind') != 'CXXConstructExpr' or len(inits) != 1:
+                    raise Unsupported(f'{where(e)}: delegating initialiser of an unknown shape')
+                cty = ce.get('ctorType', {}).get('qualType')
+                tg = [mid for mid in self.targets if self.by_id[mid].get('kind') == 'CXXConstructorDecl' and qual(self.by_id[mid]) == cty]
+                if len(tg) != 1 or self.targets[tg[0]] not in self.sigs:
+                    raise Unsupported(f'{where(e)}: delegation to a constructor that is not generated (`{cty}`)')
+                lean = self.targets[tg[0]]
+                pk, _ = self.sigs[lean]
+                def cont(q, vs):
+                    if len(vs) != len(pk):
+                        raise Unsupported(f'{where(e)}: delegation with {len(vs)} arguments')
+                    terms = []
+                    i = 0
+                    while i < len(pk):
+                        v, kd = vs[i], pk[i]
+                        if kd == 'range':
+                            if v[0] != 'rit' or vs[i + 1][0] != 'rit' or v[1] != vs[i + 1][1]:
+                                raise Unsupported(f'{where(e)}: delegation with something else than an input range')
+                            terms.append(atom(self.sub_list(v[1], v[2], vs[i + 1][2])))
+                            i += 1
+                        elif kd == 'ilist':
+                            terms.append(atom(v[1]))
+                        elif kd in ('comp', 'alloc'):
+                            if v[0] != kd:
+                                raise Unsupported(f'{where(e)}: delegation with a {v[0]} for a {kd}')
+                        else:
+                            raise Unsupported(f'{where(e)}: delegation: parameter kind {kd}')
+                        i += 1
+                    q = q.copy()
+                    var = self.fresh(q, 'r')
+                    q.vec, q.set = f'{var}.1.vec', f'{var}.1.set'
+                    q.csyms = q.csyms + (f'{var}.2.2',)
+                    return Bind(' '.join([lean, 'lt', 'N'] + terms), var, do(rest[1:], q), line_of(e))
+                return self.eval_list(kids(ce), p, cont)
+            raise Unsupported(f'{where(decl)}: constructor initialiser of an unknown kind')
+        return do(inits, p)
+
+    in_loop_body = False
+
+    def loop(self, s, path, after):
+        """`while (COND) BODY` whose only live local state is one iterator of an input range (`first`): COND and BODY become
+        `<member>_step` (state, index) -> (another round?, state, index, calls), iterated by `whileFuel` with the fuel
+        `vs.length + 1` (enough when every round consumes an element of the range: to be proved)."""
+        if self.mode != 'member' or len(path.frames) != 1 or s.get('kind') != 'WhileStmt' or path.ovec is not None:
+            raise Unsupported(f'{where(s)}: statement kind {s.get("kind")} is outside the translated subset (only the recognised loops)')
+        if any(a.endswith('_step') for a in self.aux_names):
+            raise Unsupported(f'{where(s)}: more than one loop in a member')
+        c = kids(s)
+        if len(c) != 2:
+            raise Unsupported(f'{where(s)}: while statement of an unknown shape')
+        cond, body = c
+        rits = [(nm, v) for nm, v in path.frames[-1].items() if v[0] == 'rit']
+        rest = [nm for nm, v in path.frames[-1].items() if v[0] not in ('rit', 'alloc', 'comp')]
+        if rest or len(rits) != 2 or rits[0][1][1] != rits[1][1][1] or rits[1][1][2] != f'{rits[0][1][1]}.length':
+            raise Unsupported(f'{where(s)}: only the two ends of one input range may be live at the loop')
+        (fname, fv), (lname_, lv) = rits
+        rng = fv[1]
+        name = f'{self.cur_lean}_step'
+        self.aux_names.append(name)
+        sub = Path()
+        sub.frames = [dict(path.frames[-1])]
+        sub.frames[-1][fname] = ('rit', rng, fname)
+        saved = (self.param_names, self.mode)
+        self.param_names, self.mode = {fname, rng}, 'range_step'
+        def leaf(p, cont):
+            w = p.frames[-1][fname]
+            if p.frames[-1][lname_] != lv:
+                raise Unsupported(f'{where(s)}: the loop modifies the end of the input range')
+            return Leaf(None, f'{cont}, ({state_term(p.vec, p.set)}, {w[2]})', p.calls_term(), None)
+        def kret(p, v):
+            raise Unsupported(f'{where(s)}: return inside the loop body')
+        tree = self.eval(cond, sub, lambda p, v: self.branch(
+            v, p, cond, lambda q: self.exec_block([body], q, lambda r: leaf(r, 'true'), kret), lambda q: leaf(q, 'false')))
+        self.param_names, self.mode = saved
+        doc = (f'/-- smallset.hpp:{line_of(s)} condition and body of the loop of `{self.cur_cpp}` over the input range `{rng}`: '
+               f'(another round?, (state, `{fname}`), comparator calls of the inline scans) -/')
+        sig = (f'def {name} (lt : α → α → Bool) (N : Nat) (s : Sets.SSet α) ({rng} : List α) ({fname} : Nat) : '
+               f'Option (Bool × (Sets.SSet α × Nat) × Nat) :=')
+        self.aux_defs.append('\n'.join([doc, sig] + self.emit(tree, 1)) + '\n')
+        p = path.copy()
+        var = self.fresh(p, 'r')
+        call = (f'whileFuel (fun st => {name} lt N st.1 {rng} st.2) ({atom(rng)}.length + 1) '
+                f'({state_term(p.vec, p.set)}, {fv[2]})')
+        p.vec, p.set = f'{var}.1.1.vec', f'{var}.1.1.set'
+        p.frames[-1][fname] = ('rit', rng, f'{var}.1.2')
+        p.csyms = p.csyms + (f'{var}.2',)
+        return Bind(call, var, after(p), line_of(s))
 
     def translate_step(self, decl, loop, body, itname, flag):
         """the body of the recognised loop as a function of (state, flag, element)"""
@@ -1028,6 +1786,40 @@ def foldStep (step : Sets.SSet α → Bool → α → Option (Sets.SSet α × Bo
       match foldStep step rest r.1 r.2.1 (if r.2.2.1 then kept else kept ++ [x]) with
       | none => none
       | some q => some (q.1, q.2.1, q.2.2.1, r.2.2.2 + q.2.2.2)
+
+/-- `operator==` of the backing set: equal sizes and `std::equal`, with `==` of the ELEMENT type -/
+def vecEq (eqT : α → α → Bool) : List α → List α → Bool
+  | [], [] => true
+  | a :: l, b :: o => eqT a b && vecEq eqT l o
+  | _, _ => false
+
+/-- `std::lexicographical_compare` (also `operator<` of the backing set), with `<` of the ELEMENT type -/
+def vecLess (ltT : α → α → Bool) : List α → List α → Bool
+  | _, [] => false
+  | [], _ :: _ => true
+  | a :: l, b :: o => if ltT a b then true else if ltT b a then false else vecLess ltT l o
+
+/-- `std::is_permutation(f1, l1, f2, l2)` with `==` of the ELEMENT type (`List.isPerm` of the Lean core library) -/
+def isPermutation (eqT : α → α → Bool) (l o : List α) : Bool := @List.isPerm α ⟨eqT⟩ l o
+
+/-- `std::sort(v.begin(), v.end(), comp)`: SOME permutation of the elements that is sorted by `comp` (std::sort is not stable);
+    all of them coincide when no two elements are equivalent under `comp`; the stable one is taken here -/
+def sortedBy (comp : α → α → Bool) (l : List α) : List α := l.mergeSort (fun a b => !comp b a)
+
+/-- a `while` loop whose condition and body are `step` (another round?, new state, comparator calls), run for at most `fuel`
+    rounds; running out of fuel is not a result (`none`) -/
+def whileFuel {σ : Type} (step : σ → Option (Bool × σ × Nat)) : Nat → σ → Option (σ × Nat)
+  | 0, _ => none
+  | fuel + 1, s =>
+    match step s with
+    | none => none
+    | some r =>
+      if r.1 then
+        match whileFuel step fuel r.2.1 with
+        | none => none
+        | some q => some (q.1, r.2.2 + q.2)
+      else
+        some (r.2.1, r.2.2)
 '''
 
 
@@ -1081,8 +1873,8 @@ def generate(include):
         texts.append(have[0][1])
     out = ['/- GENERATED by translator/smallset2lean.py from include/amc/smallset.hpp (instantiations '
            + ', '.join(f'amc::SmallSet<int, {n}, std::less<int>, amc::allocator<int>, {lab}>' for lab, st, n in INSTANTIATIONS)
-           + ', which give the same text; `erase_at_ptr` / `erase_at_var` are the two overloads of `erase(const_iterator)`, '
-           'each of which exists in one instantiation only). Do not edit. -/',
+           + ', which give the same text; a definition called `…_ptr` / `…_var` comes from the first / second instantiation only: '
+           'the overloads for pointer iterators / variant iterators, or a member that calls them). Do not edit. -/',
            'import AmcVerif.Model.Sets',
            'set_option linter.unusedVariables false',
            'namespace AmcVerif.Gen.SmallSet',
